@@ -197,16 +197,18 @@ Definition lstep (s : lstate) (e : sev) : lres :=
       end
   end.
 
-(* a wedge: a thread blocked on a sync lock whose owner cannot currently run *)
-Definition owner_stuck (s : lstate) (o : nat) : bool :=
+(* a wedge: thread `th` is blocked on a sync lock whose owner cannot run: the owner is parked or done,
+   or lives on the blocked thread itself, or is not the task its own thread is executing.  (An owner
+   that is the running task of ANOTHER thread is merely inside its critical section and will leave it.) *)
+Definition owner_stuck (s : lstate) (th o : nat) : bool :=
   match nth_error (tasks s) o with
   | Some t => match t_status t with
-              | Parked => true
-              | Ready => match lookup (t_thread t) (running s) with
-                         | Some j => negb (j =? o)%nat      (* its thread is occupied by another task *)
-                         | None => false
-                         end
-              | Done => true
+              | Ready => (t_thread t =? th)%nat
+                         || match lookup (t_thread t) (running s) with
+                            | Some j => negb (j =? o)%nat
+                            | None => true
+                            end
+              | _ => true
               end
   | None => true
   end.
@@ -217,7 +219,7 @@ Fixpoint lrun (s : lstate) (evs : list sev) : lstate * option (nat * nat * nat) 
   | e :: r => match lstep s e with
               | LOk s' => lrun s' r
               | LNoop => lrun s r
-              | LBlockedThread th l o => if owner_stuck s o then (s, Some (th, l, o)) else lrun s r
+              | LBlockedThread th l o => if owner_stuck s th o then (s, Some (th, l, o)) else lrun s r
               end
   end.
 
